@@ -36,6 +36,9 @@ const prelude = `(set-option :produce-models true)
 (declare-fun sbyte (Int Int) Int)
 (declare-fun sprefix (Int Int) Bool)
 (declare-fun cond_lock (Int) Int)
+(declare-fun scontains (Int Int) Bool)
+(assert (forall ((a Int)) (! (scontains a a) :pattern ((scontains a a)))))
+(assert (forall ((a Int) (b Int) (t Int)) (! (=> (or (scontains a t) (scontains b t)) (scontains (scat a b) t)) :pattern ((scontains (scat a b) t)))))
 (assert (forall ((a Int) (b Int) (p Int)) (! (=> (sprefix a p) (sprefix (scat a b) p)) :pattern ((sprefix (scat a b) p)))))
 (assert (forall ((a Int) (b Int) (p Int)) (! (=> (and (>= (slen a) (slen p)) (not (sprefix a p))) (not (sprefix (scat a b) p))) :pattern ((sprefix (scat a b) p)))))
 (declare-fun ix (Int Int) Int)
